@@ -3,7 +3,7 @@ import re
 
 from . import absint as A
 from .lib import borrow_root, callers, closure_args_of_call, operand_local, result_split, try_edges
-from .lib_c01 import (VALUE_PRESERVING, access_path, always_err_try_edges, bool_switch_of_call, conflict_loop, dead_ends, edge_is_rejecting,
+from .lib_c01 import (VALUE_PRESERVING, access_path, always_err_try_edges, bool_switch_of_call, conflict_loop, const_reach, dead_ends, edge_is_rejecting,
                       enum_switches, ok_return_blocks, option_edges, outermost_fn, resolve_path, sources, Renamed, PRE_FIX_F3_EDITS)
 
 LEVEL = "other"
@@ -60,8 +60,13 @@ def r1_validation_before_insert(ctx):
             continue
         vbb, vt = vc[0]
         sp = result_split(reg, vt["dest"]["l"])       # `x?`, `x.map_err(..)?`, match, if-let, let-else alike
-        okd = sp is not None and reg.edge_dominates(sp["switch_bb"], sp["ok"], ibb) and ibb not in reg.reachable(sp["err"]) and \
-            not any(b in reg.reachable(sp["err"]) for b in ok_return_blocks(reg))
+        # feasible paths only (const_reach): when the three calls sit in an inlined helper, its `?`s hand an Err to the caller's `helper(..)?`,
+        # which can then only take the Break edge
+        okd = False
+        if sp is not None:
+            after_err = const_reach(reg, sp["err"])
+            okd = ibb not in const_reach(reg, 0, avoid_edges=[(sp["switch_bb"], sp["ok"])]) and ibb not in after_err and \
+                not any(b in after_err for b in ok_return_blocks(reg))
         ctx.check(R, "%s-dominates-insert" % v, okd, "`%s(..)`: insert is dominated by the Ok edge of its result and the Err edge returns the error without inserting: %s" % (v, okd), (reg, vbb))
         ps = access_path(reg, vt["args"][0], VP)
         pa = access_path(reg, vt["args"][1], VP)
